@@ -393,6 +393,11 @@ func init() {
 		if tier != "quick" {
 			st = "1"
 		}
+		// what is on the wire decodes to what was sent also when senders overlap after an earlier stream was
+		// closed (recycling pools), and for the closing notice of an idle session with extreme padding draws
+		jobs = append(jobs, vx.Job{Scenario: "mux.transfer", Params: vx.P("conns", "1", "streams", "2", "writes", "300", "unit", "256", "pool", "recycle", "preclose", "1"), Bound: 1, BudgetS: 100, Weight: 7},
+			vx.Job{Scenario: "mux.timeout", Params: vx.P("op", "idle", "draws", "max"), Bound: 1, BudgetS: 100, Weight: 3},
+			vx.Job{Scenario: "mux.timeout", Params: vx.P("op", "idle", "draws", "min"), Bound: 1, BudgetS: 100, Weight: 3})
 		jobs = append(jobs, vx.Job{Scenario: "dgram.sizes", Params: vx.P("method", "plain", "step", st), Weight: 3},
 			vx.Job{Scenario: "dgram.sizes", Params: vx.P("method", "aes-256-gcm", "step", st), Weight: 3})
 		return jobs
